@@ -34,9 +34,10 @@ func VH_C15_recovery() {
 	if kind == 6 {
 		vx.Assume(phase == 0) // the before-function case has no "after its own write" phase
 	}
-	early := vx.Bool()              // a middleware in front of Recovery already sent a status
+	early := vx.Bool() // a middleware in front of Recovery already sent a status
 	s0 := vx.Int(100, 999)
 	envc := vx.Choice(3)
+	refl := vx.Bool()   // the panicking handler is called through reflection (inject.callInvoke) instead of the ContextInvoker fast path
 	nested := vx.Bool() // pass-through handlers call Next() explicitly (panic inside nested Next) or just return
 
 	envs := []EnvType{EnvTypeDev, EnvTypeProd, EnvTypeTest}
@@ -98,6 +99,8 @@ func VH_C15_recovery() {
 	if kind == 5 {
 		// failed dependency resolution: the route handler wants a type nobody mapped
 		f.Get("/", func(c Context, u *vUnmapped) {})
+	} else if refl {
+		f.Get("/", func(c Context, _ *http.Request) string { thrower(c); return "" })
 	} else {
 		f.Get("/", thrower)
 	}
@@ -171,5 +174,5 @@ func VH_C15_recovery() {
 	if envs[envc] == EnvTypeDev {
 		nbytes = -1 // the development page embeds a stack trace, which is stubbed in the interpreter
 	}
-	vx.Observe("recovered", kind, phase, early, envc, spy.firstCode, nbytes, len(post))
+	vx.Observe("recovered", kind, phase, early, refl, envc, spy.firstCode, nbytes, len(post))
 }
